@@ -119,7 +119,7 @@ type ExifRec struct {
 	IFD0, Exif, GPS *Dir
 	Exp             *Expect
 	HasExif, HasGPS bool
-	Note string // description of the maker note, if one was added
+	Note            string // description of the maker note, if one was added
 	Make            string
 }
 
